@@ -32,25 +32,20 @@ def source_hash(extra=""):
     return h.hexdigest()[:20]
 
 
-def available_encoders():
-    d = os.path.join(os.path.dirname(os.path.abspath(__file__)), "lines")
-    out = {}
-    for f in sorted(os.listdir(d)):
-        if f.endswith(".py") and f != "__init__.py":
-            try:
-                m = importlib.import_module(f"aqv.lines.{f[:-3]}")
-            except Exception as e:  # noqa: BLE001
-                print(f"[collect] encoder {f} failed to import: {e}")
-                continue
-            if hasattr(m, "NAME") and hasattr(m, "encode") and m.NAME in rec.PROCESS_MODULES:
-                out[m.NAME] = m
-    return out
+SHARED_NAMES = {"reset_initial_conditions", "solution_single_time_step"}     # one Python function observed by several encoders
 
 
-def available_encoders_all():
-    """every encoder module, including those for functions that are not daily processes"""
+def enc_key(m):
+    """the key under which an encoder's request lines are stored and its process is named in `specs`:
+    the Python function name, or the handler name when several encoders observe the same function"""
+    if m.NAME in SHARED_NAMES and getattr(m, "HANDLER", None):
+        return m.HANDLER
+    return m.NAME
+
+
+def _encoder_modules():
     d = os.path.join(os.path.dirname(os.path.abspath(__file__)), "lines")
-    out = {}
+    out = []
     for f in sorted(os.listdir(d)):
         if f.endswith(".py") and f != "__init__.py":
             try:
@@ -59,8 +54,22 @@ def available_encoders_all():
                 print(f"[collect] encoder {f} failed to import: {e}")
                 continue
             if hasattr(m, "NAME") and hasattr(m, "encode"):
-                out[m.NAME] = m
-                out.setdefault(f[:-3], m)      # also addressable by its file name (e.g. water_day)
+                out.append((f[:-3], m))
+    return out
+
+
+def available_encoders():
+    """key -> encoder, for the functions `rec.Recorder` observes in whole runs"""
+    return {enc_key(m): m for _, m in _encoder_modules()
+            if m.NAME in rec.PROCESS_MODULES or hasattr(m, "Observe")}
+
+
+def available_encoders_all():
+    """every encoder module, including those for functions that are not daily processes"""
+    out = {}
+    for fname, m in _encoder_modules():
+        out[enc_key(m)] = m
+        out.setdefault(fname, m)      # also addressable by its file name (e.g. water_day)
     return out
 
 
@@ -124,6 +133,9 @@ class Collector:
         self.scen_id = None
         self.enc_errors = collections.Counter()
         self.inner = {}
+        self.by_name = collections.defaultdict(list)
+        for key, m in (encoders or {}).items():
+            self.by_name[m.NAME].append((key, m))
         self.day_encs = []
         for m in (available_encoders_all().values() if encoders else []):
             if getattr(m, "HANDLER", None) in ("water_day", "full_day") and hasattr(m, "encode_day") \
@@ -131,7 +143,6 @@ class Collector:
                 self.day_encs.append(m)
 
     def observe(self, name, before, res, after):
-        L = self.encoders.get(name)
         handled = False
         for D in self.day_encs:
             inner_names = getattr(D, "INNER", [])
@@ -155,15 +166,18 @@ class Collector:
                         self.pairs["reset_state"].append((self.scen_id, t, r[0], r[1]))
                 except Exception as e:  # noqa: BLE001
                     self.enc_errors[f"reset_state:{type(e).__name__}:{str(e)[:80]}"] += 1
-        if handled:
-            L = None
-        if L is not None:
+        for key, L in (() if handled else self.by_name.get(name, ())):
             try:
-                line, exp = L.encode(self.reg, before, res, after)
+                r = L.encode(self.reg, before, res, after)
+                if r is None:
+                    continue
+                line, exp = r
                 t = self.cur["t"] if self.cur else -1
-                self.pairs[name].append((self.scen_id, t, line, exp))
+                self.pairs[key].append((self.scen_id, t, line, exp))
             except Exception as e:  # noqa: BLE001
-                self.enc_errors[f"{name}:{type(e).__name__}:{str(e)[:80]}"] += 1
+                if type(e).__name__ == "Skip":      # the encoder declares the call outside its model
+                    continue
+                self.enc_errors[f"{key}:{type(e).__name__}:{str(e)[:80]}"] += 1
         if self.cur is not None and not isinstance(res, Exception):
             led = self.cur.setdefault("ledger", {})
             try:
@@ -240,7 +254,12 @@ def collect(scenarios, encoders=None, with_lines=True):
         col.cur = None
 
     names = list(rec.PROCESS_MODULES)
-    with rec.Recorder(col.observe, names=names):
+    import contextlib
+    with contextlib.ExitStack() as stack:
+        stack.enter_context(rec.Recorder(col.observe, names=names))
+        for m in (encoders or {}).values() if with_lines else ():
+            if hasattr(m, "Observe"):      # functions the Recorder does not wrap (initialisation-time)
+                stack.enter_context(m.Observe(col.observe))
         for s in scenarios:
             col.scen_id = s["id"]
             col.cur = None
@@ -266,7 +285,7 @@ def collect(scenarios, encoders=None, with_lines=True):
 
 
 def n_scenarios(tier):
-    return 28 if tier == "quick" else 160
+    return 31 if tier == "quick" else 160
 
 
 def get_traces(seed, tier, verbose=True):
